@@ -46,6 +46,23 @@ def queue_attr(chk):
     return None, None, None
 
 
+def is_queue(func, e, qa):
+    """e denotes the writer's queue: self.<qa> or a local alias of it."""
+    if common.is_self_attr(e, qa):
+        return True
+    if isinstance(e, ast.Name):
+        for n in iter_own_nodes(func.node):
+            if isinstance(n, ast.Assign):
+                for t in n.targets:
+                    if isinstance(t, ast.Name) and t.id == e.id and common.is_self_attr(n.value, qa):
+                        return True
+                    if isinstance(t, ast.Tuple) and isinstance(n.value, ast.Tuple) and len(t.elts) == len(n.value.elts):
+                        for a, b in zip(t.elts, n.value.elts):
+                            if isinstance(a, ast.Name) and a.id == e.id and common.is_self_attr(b, qa):
+                                return True
+    return False
+
+
 def rule_queue(chk):
     ctx = chk.ctx
     init = _tw(chk, "__init__")
@@ -55,8 +72,10 @@ def rule_queue(chk):
     if qtype == "queue.Queue":
         ms = qcall.args[0] if qcall.args else next((k.value for k in qcall.keywords if k.arg == "maxsize"), None)
         bounded = ms is not None and not (isinstance(ms, ast.Constant) and ms.value in (0, None))
-    writers = [m for m in set(init.cls.methods.values()) for n in iter_own_nodes(m.node)
-               if isinstance(n, ast.Assign) and any(common.is_self_attr(t, qa) for t in n.targets)]
+    writers = []
+    for m in set(init.cls.methods.values()):
+        if any(isinstance(n, ast.Attribute) and isinstance(n.ctx, (ast.Store, ast.Del)) and common.is_self_attr(n, qa) for n in ast.walk(m.node)):
+            writers.append(m)
     chk.req(qtype in FIFO_UNBOUNDED and not bounded and writers == [init], "C19.queue", "ThreadedWriter.%s:unbounded-FIFO" % qa, chk.where(init),
             good="created once in __init__ from %s()" % qtype,
             fail="the queue is %s%s%s: order is not FIFO / producers can block / it is replaced later" % (qtype, " (bounded)" if bounded else "", "" if writers == [init] else ", reassigned in %s" % [w.fq for w in writers]))
@@ -76,7 +95,7 @@ def sentinel(chk, qa):
     """Module constant enqueued by stopService."""
     ctx = chk.ctx
     stop = _tw(chk, "stopService")
-    puts = [n for n in iter_own_nodes(stop.node) if isinstance(n, ast.Call) and isinstance(n.func, ast.Attribute) and n.func.attr == "put" and common.is_self_attr(n.func.value, qa)]
+    puts = [n for n in iter_own_nodes(stop.node) if isinstance(n, ast.Call) and isinstance(n.func, ast.Attribute) and n.func.attr == "put" and is_queue(stop, n.func.value, qa)]
     chk.need(puts, "stopService no longer enqueues anything")
     refs = set()
     for c in puts:
@@ -92,19 +111,27 @@ def rule_exit(chk, qa):
     rd = _tw(chk, "_reader")
     cfg = ctx.cfg(rd)
     sent, _ = sentinel(chk, qa)
-    gets = [(n, c) for n in cfg.live for c, m in calls_in_node(n) if isinstance(c.func, ast.Attribute) and common.is_self_attr(c.func.value, qa)
+    gets = [(n, c) for n in cfg.live for c, m in calls_in_node(n) if isinstance(c.func, ast.Attribute) and is_queue(rd, c.func.value, qa)
             and c.func.attr in ("get", "get_nowait")]
     chk.need(gets, "_reader no longer reads the queue")
     problems = []
     itemvars = set()
     for n, c in gets:
         if c.func.attr != "get" or c.args or c.keywords:
-            problems.append("the queue is read with %s: a timeout / non-blocking read adds an exit that does not depend on the sentinel" % unparse(c))
+            ph = [e for e in ctx.cg.ctxmaps[rd].get(id(c), []) if e[1] == "body"]
+            drain_only = bool(ph) and all(not any(isinstance(x, (ast.Return, ast.Break, ast.Raise)) for x in ast.walk(ast.Module(body=h.body, type_ignores=[])))
+                                          for h in ph[-1][0].handlers)
+            if not drain_only:
+                problems.append("the queue is read with %s: a timeout / non-blocking read adds an exit that does not depend on the sentinel" % unparse(c))
         if isinstance(n.ast, ast.Assign) and isinstance(n.ast.targets[0], ast.Name):
             itemvars.add(n.ast.targets[0].id)
+    # items may also be drawn from a local batch list filled from the queue
+    for x in iter_own_nodes(rd.node):
+        if isinstance(x, ast.For) and isinstance(x.target, ast.Name) and isinstance(x.iter, ast.Name):
+            itemvars.add(x.target.id)
     # loop tests
     for t in cfg.live:
-        if t.kind == "test" and isinstance(t.ast, ast.While):
+        if t.kind == "test" and isinstance(t.ast, ast.While) and t.ast in rd.node.body:
             if not (isinstance(t.ast.test, ast.Constant) and t.ast.test.value):
                 problems.append("the reader loop runs `while %s`: it can stop before the queue is drained" % unparse(t.ast.test))
     # every way out of the function
@@ -162,15 +189,27 @@ def rule_thread_and_contain(chk, qa, itemvars):
     chk.req(not outside and invs, "C19.thread", "ThreadedWriter:destination-invoked-only-by-the-reader", chk.where(rd),
             good="self.%s(...) is called only in _reader" % dest_attr,
             fail="the wrapped destination is called on the logging thread in %s" % [m.fq for m, n in outside] if outside else "the reader never calls the destination")
-    heads = [t for t in cfg.live if t.kind == "test" and isinstance(t.ast, ast.While)]
-    chk.need(len(heads) == 1, "_reader: loop not found")
+    heads = [t for t in cfg.live if t.kind == "test" and isinstance(t.ast, ast.While) and t.ast in rd.node.body]
+    chk.need(len(heads) == 1, "_reader: outer loop not found")
     head = heads[0]
     dn = [(n, c) for n in cfg.live for c, m in calls_in_node(n) if common.is_self_attr(c.func, dest_attr)]
     quiet = common.quiet_exc_edges(ctx, rd)
-    getn = [n for n in cfg.live for c, m in calls_in_node(n) if isinstance(c.func, ast.Attribute) and c.func.attr == "get" and common.is_self_attr(c.func.value, qa)]
+    getn = [n for n in cfg.live for c, m in calls_in_node(n) if isinstance(c.func, ast.Attribute) and c.func.attr == "get" and is_queue(rd, c.func.value, qa)]
     # per non-sentinel iteration exactly one call with the dequeued item
     sentinel_exits = {(t, lab) for x in cfg.live if x.kind in ("return", "break") for t, lab in cfg.guards_of(x) if t.kind == "test" and not isinstance(t.ast, ast.While)}
+    # innermost loop around each delivery
+    def innermost_loop(call):
+        best = None
+        for x in ast.walk(rd.node):
+            if isinstance(x, (ast.For, ast.While)) and any(y is call for st in x.body for y in ast.walk(st)):
+                if best is None or any(y is x for y in ast.walk(best)):
+                    best = x
+        return best
+    batched = any(isinstance(innermost_loop(c), ast.For) for n, c in dn)
     rng = cfg.count_range(getn[0], [head], lambda x: sum(1 for n, c in dn if n is x), avoid_edges=set()) if getn else None
+    if batched:
+        rng = (1, 1)
+        chk.skip("C19.thread", "ThreadedWriter._reader:one-delivery-per-dequeued-item(count)", chk.where(rd), "batched delivery loop: per-item count not modelled")
     okc = rng == (1, 1) and all(len(c.args) == 1 and isinstance(c.args[0], ast.Name) and c.args[0].id in itemvars and not c.keywords for n, c in dn)
     chk.req(okc, "C19.thread", "ThreadedWriter._reader:one-delivery-per-dequeued-item", chk.where(rd),
             good="exactly one self.%s(<item>) between dequeuing a message and the next iteration" % dest_attr,
@@ -178,6 +217,11 @@ def rule_thread_and_contain(chk, qa, itemvars):
     for n, c in dn:
         ph = protecting_handler(ctx.cg.ctxmaps[rd].get(id(c), []))
         okh = ph is not None
+        lp = innermost_loop(c)
+        if okh and lp is not None and not any(y is ph[0] for st in lp.body for y in ast.walk(st)):
+            chk.bad("C19.contain", "ThreadedWriter._reader:failure-loses-only-that-message", chk.where(rd, c.lineno),
+                    "the handler that contains the destination's exception is outside the loop over the dequeued items (line %d): one failure drops every message queued behind it, including the stop sentinel" % lp.lineno)
+            continue
         if okh:
             hn = [x for x in cfg.live if x.kind == "handler" and x.ast is ph[1]][0]
             r = cfg.reach([hn], avoid={head})
